@@ -117,6 +117,9 @@ impl BaudEmulation {
     }
 }
 
+/// Deepest nesting of macro invocations (DECINVM inside a macro body, inside a macro body, ...).
+pub const MAX_MACRO_NESTING: usize = 16;
+
 pub struct Parser {
     pub(crate) state: EngineState,
     saved_pos: Position,
@@ -140,6 +143,8 @@ pub struct Parser {
 
     last_char: char,
     pub(crate) macros: HashMap<usize, String>,
+    /// number of macro invocations that are being replayed right now (a macro may invoke macros)
+    macro_nesting: usize,
     pub parse_string: String,
     pub macro_dcs: String,
     pub bs_is_ctrl_char: bool,
@@ -162,6 +167,7 @@ impl Default for Parser {
             parse_string: String::new(),
             macro_dcs: String::new(),
             macros: HashMap::new(),
+            macro_nesting: 0,
             last_char: '\0',
             hyper_links: Vec::new(),
             bs_is_ctrl_char: false,
@@ -333,7 +339,7 @@ impl BufferParser for Parser {
                         return Err(ParserError::UnsupportedDCSSequence(format!("Macro hasn't one number defined got '{}'", self.parsed_numbers.len())).into());
                     }
                     self.state = EngineState::RecordDCS;
-                    self.invoke_macro_by_id(buf, current_layer, caret, *self.parsed_numbers.first().unwrap());
+                    self.invoke_macro_by_id(buf, current_layer, caret, *self.parsed_numbers.first().unwrap())?;
                     return Ok(CallbackAction::NoUpdate);
                 }
                 self.parse_string.push('\x1b');
@@ -1463,17 +1469,31 @@ impl BufferParser for Parser {
 }
 
 impl Parser {
-    fn invoke_macro_by_id(&mut self, buf: &mut Buffer, current_layer: usize, caret: &mut Caret, id: i32) {
+    /// Replays the macro `id`. A macro may invoke other macros, but at most [`MAX_MACRO_NESTING`] invocations
+    /// deep: a macro that (directly or through other macros) invokes itself would recurse until the stack overflows.
+    /// Nesting deeper than that abandons the whole chain of invocations and is reported as an error.
+    fn invoke_macro_by_id(&mut self, buf: &mut Buffer, current_layer: usize, caret: &mut Caret, id: i32) -> EngineResult<()> {
         let m = if let Some(m) = self.macros.get(&(id as usize)) {
             m.clone()
         } else {
-            return;
+            return Ok(());
         };
+        if self.macro_nesting >= MAX_MACRO_NESTING {
+            return Err(ParserError::MacroNestingTooDeep(MAX_MACRO_NESTING).into());
+        }
+        self.macro_nesting += 1;
+        let mut result = Ok(());
         for ch in m.chars() {
             if let Err(err) = self.print_char(buf, current_layer, caret, ch) {
+                if let Some(ParserError::MacroNestingTooDeep(_)) = err.downcast_ref::<ParserError>() {
+                    result = Err(err);
+                    break;
+                }
                 log::error!("Error during macro invocation: {}", err);
             }
         }
+        self.macro_nesting -= 1;
+        result
     }
 
     fn execute_aps_command(&self, _buf: &mut Buffer, _caret: &mut Caret) {
